@@ -4,7 +4,7 @@ import numpy as np
 import puan, puan.logic.plog as pg
 from common import *
 from plogio import *
-from props.c01 import poly_obs
+from props.c01 import poly_obs, lookalike
 
 RULE = ("validated plain models (depth 0-4, every connective, explicit signs, sharing, boolean and small integer leaves); completeness: every "
         "satisfying in-bounds leaf assignment (exhaustive <= cap, else random) extends to a point of the asserted polyhedron; soundness (solver-safe "
@@ -96,6 +96,21 @@ def run(res, tier, seed):
         cases.append((lambda it, m=m, cols=cols, rows=rows:
                       f"(true, {dump(m, it)}, {lst(f'({it.s(c)}, ({z(lo)}, {z(hi)}))' for c, (lo, hi) in cols)}, {lst(lst(z(v) for v in r) for r in rows)})", (ast,)))
         res.sample({"model": repr(m), "columns": [c for c, _ in cols][:8], "solver_safe": safe})
+        # a look-alike sibling (same ids / values / signs, deeper leaf bounds (lo-d, hi+d)) converted right after the original
+        if depth_of(m) >= 2 and len(cases) % 3 == 0:
+            ast2 = lookalike(ast, rng.choice([1, 2]))
+            try:
+                m2 = build(ast2)
+                if not is_var(m2) and not m2.errors() and plain(m2):
+                    res.count("lookalike_sibling")
+                    bad = complete_model(res, ast2, m2, rng, 8 if tier == "quick" else 25, 0 if tier == "quick" else 400)
+                    if not bad and solver_safe(m2):
+                        bad = sound_model(res, ast2, m2, cap)
+                        bad = None if bad == "skipped" else bad
+                    if bad:
+                        res.violation("oracle", f"{bad['problem']} on {m2!r} (converted after its look-alike {m!r})", dict(bad, converted_before=ast_json(ast)))
+            except Exception as e:
+                res.count("lookalike_build_error:" + type(e).__name__)
     n, failing, errs = run_case_shards("C02", "encode", "", "bool * prop * list (ident * (Z * Z)) * list (list Z)", "check_encode", cases)
     res.corr_cases += n; res.evaluations += n
     for e in errs:
@@ -111,6 +126,8 @@ def run(res, tier, seed):
 
 def replay(payload):
     r = payload.get("replay", payload)
+    if r.get("converted_before"):
+        build(r["converted_before"]).to_ge_polyhedron(True)
     m = build(r["model"])
     cols, rows = poly_obs(m, True)
     class R: evaluations = 0
